@@ -283,6 +283,19 @@ def _eth_is_bytes(it, a, kw, node):
     return _isinstance(it, [a[0], External("builtins.bytearray")], {}, node)
 
 
+def _eth_big_endian_to_int(it, a, kw, node):
+    # eth_utils.big_endian_to_int(b) = int.from_bytes(b, "big")
+    return _from_bytes(it, [a[0], "big"], {}, node)
+
+
+def _eth_int_to_big_endian(it, a, kw, node):
+    # eth_utils.int_to_big_endian(n): the *minimal* big-endian encoding (leading zero bytes dropped; 0 -> b"\x00")
+    v = a[0]
+    if is_sym(v):
+        return Term("int_to_big_endian_minimal", (v,), "bytes")
+    return v.to_bytes((v.bit_length() + 7) // 8 or 1, "big")
+
+
 def _iter(it, a, kw, node):
     I = _I()
     x = a[0]
@@ -373,7 +386,7 @@ def _range(it, a, kw, node):
             return I.SymSeq(f"range({show(lo)},{show(hi)},{step})", idx, Term("range_len", (lo, hi, step), "int"),
                             src=("range", lo, hi, step))
         idx = Term("range_elem", (lo, hi), "int")
-        return I.SymSeq(f"range({show(lo)},{show(hi)})", idx, Term("range_len", (lo, hi), "int"))
+        return I.SymSeq(f"range({show(lo)},{show(hi)})", idx, Term("range_len", (lo, hi), "int"), src=("range", lo, hi, 1))
     return range(*a)
 
 
@@ -407,6 +420,16 @@ def _enumerate(it, a, kw, node):
 
 
 def _reversed(it, a, kw, node):
+    I = _I()
+    if isinstance(a[0], I.SymSeq) and isinstance(a[0].src, tuple) and len(a[0].src) == 4 and a[0].src[0] == "range" and a[0].src[3] == 1:
+        # reversed(range(lo, hi)) = range(hi − 1, lo − 1, −1)
+        _r, lo, hi, _st = a[0].src
+
+        def minus1(x):
+            if isinstance(x, Term) and x.op == "sub" and isinstance(x.args[1], int):
+                return t_arith("sub", x.args[0], x.args[1] + 1)
+            return t_arith("sub", x, 1) if is_sym(x) else x - 1
+        return _range(it, [minus1(hi), minus1(lo), -1], {}, node)
     if isinstance(a[0], BinDigits) and a[0].kind == "int":
         d = a[0]
         return BinDigits(d.n, d.start, d.stop, "int", "msb" if d.order == "lsb" else "lsb")
@@ -752,6 +775,7 @@ _TABLE = {
     "importlib.metadata.version": _version,
     "collections.OrderedDict": _ordered_dict, "threading.Lock": _lock, "threading.RLock": _lock,
     "functools.lru_cache": _lru_cache, "functools.cache": _lru_cache,
+    "eth_utils.big_endian_to_int": _eth_big_endian_to_int, "eth_utils.int_to_big_endian": _eth_int_to_big_endian,
     "eth_utils.is_number": _eth_is_number, "eth_utils.is_integer": _eth_is_integer, "eth_utils.is_bytes": _eth_is_bytes,
 }
 
@@ -768,6 +792,10 @@ def call_method(it, name, obj, args, kwargs):
         if h.key is not None:
             return Term("HMAC", (h.fn, I._hashable(_b2b(h.key)), I._hashable(_b2b(h.data))), "bytes")
         return Term("H", (h.fn, I._hashable(_b2b(h.data))), "bytes")
+    if name == "object.__new__":
+        if len(args) != 1 or not isinstance(args[0], ClassInfo):
+            raise AnalysisError("object.__new__ with unexpected arguments")
+        return I.Instance(args[0])
     if name == "struct.pack_method":
         if len(args) != 1:
             raise AnalysisError("Struct.pack with several values")
@@ -819,6 +847,9 @@ def call_method(it, name, obj, args, kwargs):
         return Term("bit_length", (obj,), "int")
     if tname == "bytes" and meth in ("startswith", "endswith") and (is_sym(obj) or any(is_sym(a) for a in args)):
         return Term(meth, (I._hashable(obj),) + tuple(I._hashable(a) for a in args), "bool")
+    if tname == "bytes" and isinstance(obj, Term) and meth in ("zfill", "rjust", "ljust", "lstrip", "rstrip", "strip"):
+        # padding with ASCII '0' / a fill byte, stripping: opaque byte strings (none of them is I2OSP / a concatenation)
+        return Term("bytes." + meth, (obj,) + tuple(I._hashable(a) for a in args), "bytes")
     if tname == "bytes" and isinstance(obj, Term):
         if meth == "join":
             raise AnalysisError("join on symbolic separator")
